@@ -14,6 +14,7 @@ import (
 	"path/filepath"
 	"regexp"
 	"strings"
+	"sync"
 	"syscall"
 	"time"
 
@@ -31,6 +32,7 @@ type Opt struct {
 }
 
 type Proc struct {
+	doMu       sync.Mutex // one command/reply exchange at a time
 	Cmd        *exec.Cmd
 	stdin      io.WriteCloser
 	out        *bufio.Reader
@@ -121,6 +123,8 @@ func (p *Proc) readReply(wd time.Duration) (worker.Reply, error) {
 }
 
 func (p *Proc) Do(c worker.Cmd) (worker.Reply, error) {
+	p.doMu.Lock()
+	defer p.doMu.Unlock()
 	b, _ := json.Marshal(c)
 	if _, err := p.stdin.Write(append(b, '\n')); err != nil {
 		return worker.Reply{}, err
